@@ -493,7 +493,14 @@ func GenConfig(t *rapid.T, o GenOpts) *Config {
 			r.PtrIn = o.PtrIn && r.UseIn && rapid.IntRange(0, 2).Draw(t, "ptrIn") == 0
 			if o.Err {
 				r.HasErr = rapid.IntRange(0, 2).Draw(t, "hasErr") == 0
-				r.PtrErr = o.PtrErr && r.HasErr && rapid.IntRange(0, 3).Draw(t, "ptrErr") == 0
+				if o.PtrErr && r.HasErr {
+					switch rapid.IntRange(0, 7).Draw(t, "errType") {
+					case 0, 1:
+						r.PtrErr = true
+					case 2:
+						r.SliceErr = true
+					}
+				}
 			}
 		}
 		if o.AltImpl && (r.Form == FormPlain || r.Form == FormOut) && len(r.As) == 0 {
@@ -639,7 +646,7 @@ func (g *genState) genSigTwin(t *rapid.T, regs []Reg) (Reg, bool) {
 			nextID = r.ID + 1
 		}
 	}
-	tw := Reg{ID: nextID, Form: src.Form, HasErr: src.HasErr, PtrErr: src.PtrErr, UseIn: src.UseIn, PtrIn: src.PtrIn, IsTwin: true, TwinOf: src.ID,
+	tw := Reg{ID: nextID, Form: src.Form, HasErr: src.HasErr, PtrErr: src.PtrErr, SliceErr: src.SliceErr, UseIn: src.UseIn, PtrIn: src.PtrIn, IsTwin: true, TwinOf: src.ID,
 		Outs: append([]OutSpec(nil), src.Outs...), Deps: append([]DepSpec(nil), src.Deps...)}
 	// lifetimes the dependencies allow: anything long-lived must not depend on a scoped service
 	scopedDep := false
